@@ -15,6 +15,11 @@ import s2_more as more
 more.register(globals(), {"C09"}, ["par3_mixed", "map_iter_catch", "map_fail_batches", "map_in_par", "par_in_map", "branch_fail_state", "par_longform", "nested_inner_catch"],
               {"par3_mixed": [("_none", "not fa and not fb"), ("_a", "fa and not fb"), ("_b", "fb and not fa"), ("_ab", "fa and fb")], "map_in_par": [("_k%d" % k, "kind == %d" % k) for k in range(3)]})
 
+import s2_redis as rds
+rds.register(globals(), {"C09", "C11"}, ["redis_chain", "redis_name_reused"])
+ASSUMPTIONS = ASSUMPTIONS + [
+    "redis_* conditions: the engine's stores are the real RedisDictStore/RedisListStore over vf.fake_redis (one connection per process, tracker thread not run: cache invalidation messages are delivered by the harness before each read, or left pending); after every scheduling step DescribeExecution, GetExecutionHistory and ListExecutions are answered by the real REST handlers (asyncio / blocking front end) of the engine's own process or of a second process with its own connection, and compared with the execution's latest notification",
+]
 
 # ---------------------------------------------------------------------------
 # One-step kernels (Engine A)
